@@ -60,13 +60,46 @@ def native_on_off(shape, seed, container="set"):
     return problems, sc
 
 
+def native_sign_sensitive(shape=None, seed=0, container="set"):
+    """Shared sub-expressions under sign-sensitive functions (Abs, atan2, sqrt of a square), evaluated where the shared term is
+    negative: rewrites that are only valid for positive temporaries change the value with CSE on."""
+    import math
+
+    import sympy
+    from replay import shim
+    from replay.native import repo_import
+
+    py = shim.install()
+    ui = repo_import("formak.ui")
+    dt, x, y, lx, ly = (sympy.Symbol(n) for n in ("dt", "x", "y", "lx", "ly"))
+    dx, dy = lx - x, ly - y
+    sm = {x: x + dt * sympy.Abs(dx) + sympy.sqrt(dx**2) * dy, y: y + sympy.atan2(dy, dx) + dx * dy * dt}
+    sc = scenarios.Scenario(1, 0, 0, [1], seed=seed)
+    problems = []
+    try:
+        model = ui.Model(dt=dt, state={x, y}, control=set(), calibration={lx, ly}, state_model=sm)
+        outs = {}
+        for cse in (True, False):
+            m = py.compile(model, calibration_map={lx: -2.0, ly: 0.5}, config={"common_subexpression_elimination": cse})
+            out = m.model(0.1, m.State(x=3.0, y=1.25))
+            outs[cse] = [float(v) for v in out.data[:, 0]]
+        vals = {x: 3.0, y: 1.25, lx: -2.0, ly: 0.5, dt: 0.1}
+        want = [float(sm[s].subs(vals)) for s in sorted(sm, key=lambda s: s.name)]
+        for cse in (True, False):
+            if any(abs(a - b) > 1e-9 * max(1, abs(b)) for a, b in zip(outs[cse], want)):
+                problems.append(f"cse={cse}: compiled model gives {outs[cse]}, the expressions (Abs / sqrt of a square / atan2 of shared terms, shared term negative) evaluate to {want}")
+    except Exception as e:
+        problems.append(f"{type(e).__name__}: {(str(e).splitlines() or [''])[0]}")
+    return problems, sc
+
+
 def check(run):
     for c in (pyblock.Compile(True), pyblock.Compile(False), pyblock.Execute(True), pyblock.Execute(False)):
         rep = run.verify(c, {})
-        triage_generic(run, rep, native_on_off, c.key.split(".")[-1])
+        triage_generic(run, rep, native_on_off, c.key.split(".")[-1], extra_native=[native_sign_sensitive])
     for c in (cppgen.CppBlockCompile(True), cppgen.CppBlockCompile(False)):
         rep = run.verify(c, {})
-        triage_generic(run, rep, cxx_ssa_native, "cpp.BasicBlock.compile")
+        triage_generic(run, rep, cxx_ssa_native, "cpp.BasicBlock.compile", extra_native=[native_sign_sensitive])
     shapes = [(3, 1, 2), (2, 2, 0), (4, 0, 1)] if run.tier == "thorough" else [(3, 1, 2)]
     fails = 0
     for shp in shapes:
@@ -75,6 +108,11 @@ def check(run):
         if problems:
             fails += 1
             run.findings.append(Finding("C08.py.native_on_off", "python", f"shape {shp}: {problems[0]}", {"language": "python", "inputs": {"shape": list(shp), "seed": run.seed}, "model_definition": sc.describe(), "oracle_verdict": problems[:4]}, True))
+    run.native_runs += 1
+    problems, sc = native_sign_sensitive()
+    if problems:
+        fails += 1
+        run.findings.append(Finding("C08.py.native_sign_sensitive", "python", problems[0], {"language": "python", "inputs": {"shape": [2, 2, 0], "seed": run.seed, "sign_sensitive": True}, "oracle_verdict": problems[:3]}, True))
     run.bounded.append({"what": "compiled python model with nested shared sub-expressions: CSE on vs off vs exact sympy", "bound": f"{len(shapes)} programs", "failures": fails, "counted_as_proved": False})
     try:
         from checks import cxx_generated
@@ -95,6 +133,10 @@ def cxx_ssa_native(shape, seed, container="set"):
 
 def replay_file(payload):
     inp = payload["inputs"]
+    if inp.get("sign_sensitive") or inp.get("extra_scenario"):
+        problems, sc = native_sign_sensitive()
+        print("replay C08:", problems[:2] or "sign-sensitive shared sub-expressions agree")
+        return not problems
     problems, sc = native_on_off(tuple(inp["shape"][:3]), inp.get("seed", 0))
     print("replay C08:", problems[:3] or "CSE on and off agree with the symbolic expressions")
     return not problems
